@@ -156,6 +156,12 @@ def replay(rep):
         from props import _purity
         return _purity.replay_protocol(rep['replay'])
     r = rep['replay']; x = vlib.unhexv(r['x'])
+    if r.get('form') == 'class_vs_function':
+        from props import _estimators as E_
+        try:
+            return not E_.class_vs_function('pburg', np.real(x) if r.get('real') else x, r['cfg'])
+        except Exception:
+            return False
     if r.get('criteria'):
         return not check_criteria(x, r['order'], r['criteria'], 'replay')
     if r.get('function') == '_arburg2':
@@ -287,6 +293,27 @@ def run(ctx):
             for key, what in check_arburg2(x, p, tag):
                 ctx.violation(key, what, {'function': '_arburg2', 'x': vlib.hexv(x), 'order': p})
             ctx.case(('search-burg2', x.tobytes(), p), nontrivial=(p >= 2))
+
+    # ---------------- the class holds the model of the functional estimator: every criterion (and none), white records (the criterion may
+    # reject even the first stage: an EMPTY model), coloured records, real and complex
+    for ci, name in enumerate([None, 'AIC', 'AICc', 'KIC', 'AKICc', 'MDL', 'FPE']):
+        for cplx in (False, True):
+            for style in ('white', 'ar'):
+                N = int(rng.integers(40, 90)); x = rng.standard_normal(N) + (1j * rng.standard_normal(N) if cplx else 0)
+                if style == 'ar':
+                    for i in range(2, N):
+                        x[i] = x[i] + 1.2 * x[i - 1] - 0.7 * x[i - 2]
+                cfg = {'order': 6}
+                if name:
+                    cfg['criteria'] = name
+                ctx.count('search/class-vs-function/%s/%s' % (name, style)); ctx.case(('cls-fn', name, cplx, style, x.tobytes()), nontrivial=True)
+                try:
+                    bad = E_.class_vs_function('pburg', x, cfg)
+                except Exception as e:
+                    bad = ['pburg raised %s: %s' % (type(e).__name__, str(e)[:80])]
+                for what in bad:
+                    ctx.violation('class_is_function/pburg/%s/%s' % (name, 'complex' if cplx else 'real'), what,
+                                  {'form': 'class_vs_function', 'x': vlib.hexv(np.asarray(x, dtype=complex)), 'real': not cplx, 'cfg': cfg})
 
     # ---------------- results depend on the VALUES given only: call protocol (repeat, aliasing, buffer reuse, memory layout, integer / single-precision dtypes)
     from props import _purity
